@@ -111,6 +111,9 @@ SHUFFLE_PACKS = {
     "mix": lambda n: [(3 * i + 1) % (2 * n) for i in range(n)],
     "sel": lambda n: [(i if i % 2 == 0 else n + i) for i in range(n)],
     "fstrev": lambda n: [n - 1 - i for i in range(n)],
+    # near misses of the per-128-bit-lane fast paths (shuffle_ps / shuffle_pd / blend): the right operand per position, the wrong half
+    "lodup": lambda n: [(0 if i % 2 == 0 else n + i - 1) for i in range(n)],               # 0, n, 0, n+2, ...
+    "pairswap": lambda n: [((i ^ 1) if i % 2 == 0 else n + (i ^ 1)) for i in range(n)],  # 1, n, 3, n+2, ...
 }
 for _k in SHUFFLE_PACKS:
     op("shuffle_" + _k, "xsimd::shuffle(a, b, xsimd::batch_constant<xsimd::as_unsigned_integer_t<T>, A, {PACK:%s}>{})" % _k, "BB", ALL_TYPES)
